@@ -1,7 +1,8 @@
 import Dasp.Driver.Loop
+import Dasp.Driver.Graph
 open Dasp.Driver
 
--- stub: replaced when property C09 is wired in
 def main : IO Unit := runDriver fun
+  | "proc" :: rest => procLine rest
   | [] => ""
   | _ => "bad-op"
